@@ -13,6 +13,14 @@
 //
 // Part C: the same through the real `buf` binary (build -o -, lint, ls-files, format -d) under
 // GOMAXPROCS variation and permuted --path arguments.
+//
+// Part E: dedicated binary scenarios (many files, nested --type filters, image --path order).
+//
+// Parts B-many / E-many (many.go): workspaces with HUNDREDS of problems of every kind (compile
+// errors over many files, lint findings, breaking findings, unparsable files for format), each
+// run >= 8 times in-process and >= 8 times through the binary; bytes, exit status and the NUMBER
+// of diagnostics are compared with a GOMAXPROCS=1 reference and with the harness's bookkeeping
+// of what it planted.  `--only 2000000+k [keep]` runs family member k alone.
 package main
 
 import (
@@ -688,7 +696,8 @@ func partD(run *hx.Run, r *hx.Rand) {
 // ---------------------------------------------------------------------------------------
 // Part C: the real binary
 
-func partC(run *hx.Run, r *hx.Rand, tmpRoot string) {
+// buildBuf builds the real binary from the tree under test into tmpRoot/buf.
+func buildBuf(run *hx.Run, tmpRoot string) (string, bool) {
 	repo := os.Getenv("VERIF_REPO")
 	if repo == "" {
 		repo = "/repo"
@@ -699,8 +708,12 @@ func partC(run *hx.Run, r *hx.Rand, tmpRoot string) {
 	cmd.Env = append(os.Environ(), "GOPROXY=off", "GOFLAGS=-mod=mod")
 	if out, err := cmd.CombinedOutput(); err != nil {
 		run.Fail(hx.OracleFailure{Class: "buf-binary-does-not-build", What: string(out), Input: nil, Replay: "go build ./cmd/buf"})
-		return
+		return "", false
 	}
+	return bufBin, true
+}
+
+func partC(run *hx.Run, r *hx.Rand, tmpRoot string, bufBin string) {
 	n := run.N(6, 60)
 	for i := 0; i < n; i++ {
 		cr := r.Fork(uint64(i))
@@ -744,57 +757,42 @@ func partC(run *hx.Run, r *hx.Rand, tmpRoot string) {
 			a, b := allProto[0], allProto[len(allProto)-1]
 			cmds = append(cmds, []string{"build", "-o", "-", "--path", a, "--path", b})
 		}
+		// all runs of this workspace, 12 processes at a time; judged afterwards in order
+		gmpsC := []string{"", "1", "2", "16", "", "16", "4", ""}
+		type cjob struct {
+			ci, vi int
+			a      []string
+			res    []byte
+		}
+		var cjobs []*cjob
 		for ci, args := range cmds {
-			var ref []byte
-			for vi, gmp := range []string{"", "1", "2", "16", "", "16", "4", ""} {
+			for vi := range gmpsC {
 				a := append([]string{}, args...)
 				if ci == 5 && vi%2 == 1 {
 					// swap the two --path arguments
 					a[4], a[6] = a[6], a[4]
 				}
-				c := exec.Command(bufBin, a...)
-				c.Dir = dir
-				c.Env = append(os.Environ(), "HOME="+tmpRoot, "BUF_CACHE_DIR="+filepath.Join(tmpRoot, "cache"))
-				if gmp != "" {
-					c.Env = append(c.Env, "GOMAXPROCS="+gmp)
-				}
-				var stdout, stderr bytes.Buffer
-				c.Stdout, c.Stderr = &stdout, &stderr
-				err := c.Run()
-				code := 0
-				var ee *exec.ExitError
-				if errors.As(err, &ee) {
-					code = ee.ExitCode()
-				} else if err != nil {
-					code = -1
-				}
-				outBytes := stdout.Bytes()
-				if args[0] == "format" {
-					// `diff -u` headers carry the wall-clock time of the run: not part of the verdict
-					lines := strings.Split(string(outBytes), "\n")
-					for li, l := range lines {
-						if strings.HasPrefix(l, "--- ") || strings.HasPrefix(l, "+++ ") {
-							if t := strings.IndexByte(l, '\t'); t >= 0 {
-								lines[li] = l[:t]
-							}
-						}
-					}
-					outBytes = []byte(strings.Join(lines, "\n"))
-				}
-				res := append([]byte(fmt.Sprintf("exit=%d\n--stdout\n", code)), outBytes...)
-				res = append(res, []byte("\n--stderr\n")...)
-				res = append(res, stderr.Bytes()...)
-				run.Eval()
-				run.Distinct(fmt.Sprintf("C-%d-%d-%d", i, ci, vi))
-				run.Count("C:buf " + args[0])
-				if vi == 0 {
-					ref = res
-				} else if !bytes.Equal(ref, res) {
-					run.Fail(hx.OracleFailure{Class: "binary-nondeterministic-" + args[0],
-						What:   fmt.Sprintf("`buf %s` output differs between default and GOMAXPROCS=%s (args %v)", strings.Join(args, " "), gmp, a),
-						Input:  map[string]any{"workspace": describe(ws), "args": a},
-						Replay: fmt.Sprintf("build/c02 --out /tmp/c02-replay --seed %d --tier %s", run.Seed, run.Tier)})
-				}
+				cjobs = append(cjobs, &cjob{ci: ci, vi: vi, a: a})
+			}
+		}
+		parallelDo(12, len(cjobs), func(k int) {
+			j := cjobs[k]
+			br := runBufBin(bufBin, tmpRoot, dir, gmpsC[j.vi], j.a) // format: diff timestamps stripped
+			j.res = []byte(fmt.Sprintf("exit=%d\n--stdout\n%s\n--stderr\n%s", br.code, br.stdout, br.stderr))
+		})
+		var ref []byte
+		for _, j := range cjobs {
+			args, gmp := cmds[j.ci], gmpsC[j.vi]
+			run.Eval()
+			run.Distinct(fmt.Sprintf("C-%d-%d-%d", i, j.ci, j.vi))
+			run.Count("C:buf " + args[0])
+			if j.vi == 0 {
+				ref = j.res
+			} else if !bytes.Equal(ref, j.res) {
+				run.Fail(hx.OracleFailure{Class: "binary-nondeterministic-" + args[0],
+					What:   fmt.Sprintf("`buf %s` output differs between default and GOMAXPROCS=%s (args %v)", strings.Join(args, " "), gmp, j.a),
+					Input:  map[string]any{"workspace": describe(ws), "args": j.a},
+					Replay: fmt.Sprintf("build/c02 --out /tmp/c02-replay --seed %d --tier %s", run.Seed, run.Tier)})
 			}
 		}
 		os.RemoveAll(dir)
@@ -849,23 +847,24 @@ func partE(run *hx.Run, r *hx.Rand, tmpRoot string, bufBin string) {
 			must0(os.WriteFile(filepath.Join(dir, name), []byte(fmt.Sprintf("syntax = \"proto3\";\npackage p;\n%smessage bad_%02d { int32 camelCase = 1; }\n", imp, k)), 0o644))
 		}
 		// (1) many files: lint / build / ls-files under different core counts
-		for _, args := range [][]string{{"lint", "--error-format=json"}, {"build", "-o", "-"}, {"ls-files"}, {"breaking", "--against", ".", "--error-format=json"}} {
-			var ref []byte
-			for vi, gmp := range []string{"1", "2", "3", "4", "16", "2", ""} {
-				res := runBuf(dir, gmp, args...)
-				run.Distinct(fmt.Sprintf("E-big-%d-%s-%d", i, args[0], vi))
-				run.Count("E:many-files buf " + args[0])
-				if vi == 0 {
-					ref = res
-				} else if !bytes.Equal(ref, res) {
-					run.Fail(hx.OracleFailure{Class: "binary-nondeterministic-manyfiles-" + args[0], What: fmt.Sprintf("`buf %s` on a %d-file module differs between GOMAXPROCS=1 and GOMAXPROCS=%q: %d vs %d bytes", strings.Join(args, " "), nFiles+1, gmp, len(ref), len(res)), Input: map[string]any{"files": nFiles + 1, "args": args}, Replay: rp})
-					break
-				}
+		// (2) nested --type includes, repeated (map iteration order)
+		// all processes of (1) and (2) run 12 at a time and are judged afterwards in order
+		type ejob struct {
+			group string
+			args  []string
+			gmp   string
+			res   []byte
+		}
+		var ejobs []*ejob
+		bigArgs := [][]string{{"lint", "--error-format=json"}, {"build", "-o", "-"}, {"ls-files"}, {"breaking", "--against", ".", "--error-format=json"}}
+		bigGmps := []string{"1", "2", "3", "4", "16", "2", ""}
+		for _, args := range bigArgs {
+			for _, gmp := range bigGmps {
+				ejobs = append(ejobs, &ejob{group: "big", args: args, gmp: gmp})
 			}
 		}
-		// (2) nested --type includes, repeated (map iteration order)
-		for ti, types := range [][]string{{"p.Outer", "p.Outer.Inner"}, {"p.Svc", "p.Svc.One"}, {"p.Outer.Inner", "p.Outer", "p.Outer.E"}} {
-			var ref []byte
+		typeSets := [][]string{{"p.Outer", "p.Outer.Inner"}, {"p.Svc", "p.Svc.One"}, {"p.Outer.Inner", "p.Outer", "p.Outer.E"}}
+		for _, types := range typeSets {
 			for rep := 0; rep < 16; rep++ {
 				args := []string{"build", "-o", "-"}
 				ts := append([]string{}, types...)
@@ -877,14 +876,52 @@ func partE(run *hx.Run, r *hx.Rand, tmpRoot string, bufBin string) {
 				for _, t := range ts {
 					args = append(args, "--type", t)
 				}
-				res := runBuf(dir, "", args...)
+				ejobs = append(ejobs, &ejob{group: "type", args: args})
+			}
+		}
+		parallelDo(12, len(ejobs), func(k int) {
+			j := ejobs[k]
+			br := runBufBin(bufBin, tmpRoot, dir, j.gmp, j.args)
+			j.res = []byte(fmt.Sprintf("exit=%d\n--stdout\n%s\n--stderr\n%s", br.code, br.stdout, br.stderr))
+		})
+		at := 0
+		for _, args := range bigArgs {
+			var ref []byte
+			failed := false
+			for vi, gmp := range bigGmps {
+				res := ejobs[at].res
+				at++
+				if failed {
+					continue
+				}
+				run.Eval()
+				run.Distinct(fmt.Sprintf("E-big-%d-%s-%d", i, args[0], vi))
+				run.Count("E:many-files buf " + args[0])
+				if vi == 0 {
+					ref = res
+				} else if !bytes.Equal(ref, res) {
+					run.Fail(hx.OracleFailure{Class: "binary-nondeterministic-manyfiles-" + args[0], What: fmt.Sprintf("`buf %s` on a %d-file module differs between GOMAXPROCS=1 and GOMAXPROCS=%q: %d vs %d bytes", strings.Join(args, " "), nFiles+1, gmp, len(ref), len(res)), Input: map[string]any{"files": nFiles + 1, "args": args}, Replay: rp})
+					failed = true
+				}
+			}
+		}
+		for ti, types := range typeSets {
+			var ref []byte
+			failed := false
+			for rep := 0; rep < 16; rep++ {
+				res := ejobs[at].res
+				at++
+				if failed {
+					continue
+				}
+				run.Eval()
 				run.Distinct(fmt.Sprintf("E-type-%d-%d-%d", i, ti, rep))
 				run.Count("E:type-filter")
 				if rep == 0 {
 					ref = res
 				} else if !bytes.Equal(ref, res) {
 					run.Fail(hx.OracleFailure{Class: "binary-nondeterministic-type-filter", What: fmt.Sprintf("`buf build --type %s` gives different images on repeated runs / for permuted --type order (%d vs %d bytes)", strings.Join(types, " --type "), len(ref), len(res)), Input: map[string]any{"types": types}, Replay: rp})
-					break
+					failed = true
 				}
 			}
 		}
@@ -916,13 +953,34 @@ func main() {
 		func(bufconfig.PluginConfig) (pluginrpc.Runner, error) { return nil, errors.New("no plugins") })))
 	tmpRoot := must(os.MkdirTemp("", "verif-c02-"))
 	defer os.RemoveAll(tmpRoot)
-	partA(run, r.Fork(1))
+	secs := map[string]string{}
+	timed := func(name string, f func()) {
+		t0 := time.Now()
+		f()
+		secs[name] = fmt.Sprintf("%.1f", time.Since(t0).Seconds())
+		run.Set("seconds_per_part", secs)
+	}
+	if run.Only >= manyOnlyBase {
+		// one member of the many-problem family alone
+		partBMany(run, r.Fork(6))
+		if bufBin, ok := buildBuf(run, tmpRoot); ok {
+			partEMany(run, r.Fork(6), tmpRoot, bufBin)
+		}
+		run.Finish()
+		return
+	}
+	timed("A", func() { partA(run, r.Fork(1)) })
 	if run.Only < 0 {
-		partB(run, r.Fork(2))
-		partD(run, r.Fork(4))
-		partC(run, r.Fork(3), tmpRoot)
-		if _, err := os.Stat(filepath.Join(tmpRoot, "buf")); err == nil {
-			partE(run, r.Fork(5), tmpRoot, filepath.Join(tmpRoot, "buf"))
+		timed("B", func() { partB(run, r.Fork(2)) })
+		timed("B-many", func() { partBMany(run, r.Fork(6)) })
+		timed("D", func() { partD(run, r.Fork(4)) })
+		var bufBin string
+		var ok bool
+		timed("build-buf", func() { bufBin, ok = buildBuf(run, tmpRoot) })
+		if ok {
+			timed("C", func() { partC(run, r.Fork(3), tmpRoot, bufBin) })
+			timed("E", func() { partE(run, r.Fork(5), tmpRoot, bufBin) })
+			timed("E-many", func() { partEMany(run, r.Fork(6), tmpRoot, bufBin) })
 		}
 	} else {
 		partB(run, r.Fork(2))
